@@ -411,7 +411,7 @@ hex32_top!(c06_hex32_top_i128_neg_0, i128, "i128", true, b'0');
 wide_radix!(c06_wide_hex32_i128_pos, i128, "i128", 32, false, b'x', 16, b"7fffffffffffffffffffffffffffffff", 37, signed);
 wide_radix!(c06_wide_hex32_i128_neg, i128, "i128", 32, true, b'x', 16, b"80000000000000000000000000000000", 37, signed);
 wide_radix!(c06_wide_hex33_u128, u128, "u128", 33, false, b'x', 16, b"0ffffffffffffffffffffffffffffffff", 38, unsigned);
-wide_radix!(c06_wide_oct_i64_pos, i64, "i64", 21, false, b'o', 8, b"777777777777777777777", 26, signed);
+wide_radix!(c06_wide_oct_i64_pos, i64, "i64", 22, false, b'o', 8, b"0777777777777777777777", 27, signed);
 wide_radix!(c06_wide_oct_u64, u64, "u64", 22, false, b'o', 8, b"1777777777777777777777", 27, unsigned);
 
 // ------------------------------------------------------------------------------------------
